@@ -15,9 +15,18 @@ def run_patch(patch, props=None, keep=False, verbose=False):
     with open(patch) as fh:
         head = fh.readline()
     expect = set()
+    label = os.path.basename(patch)
     if head.startswith("# expect:"):
         e = head.split(":", 1)[1].strip()
         expect = set() if e == "none" else set(x.strip() for x in e.split(","))
+    meta = os.path.join(os.path.dirname(patch), "meta.json")
+    if os.path.basename(patch) == "patch.diff" and os.path.exists(meta):
+        import json
+        m = json.load(open(meta))
+        expect = set(m.get("expect_checks") or [m["property"]])
+        if m.get("not_detectable"):
+            expect = set()
+        label = "seeded/" + os.path.basename(os.path.dirname(patch))
     scratch = tempfile.mkdtemp(prefix="agv-scratch-", dir="/tmp")
     evid = tempfile.mkdtemp(prefix="agv-evid-", dir="/tmp")
     try:
@@ -40,7 +49,7 @@ def run_patch(patch, props=None, keep=False, verbose=False):
                 fired[pr] = [l.strip() for l in q.stdout.splitlines() if l.strip().startswith("key:")] or [q.stdout[-300:]]
             if verbose:
                 sys.stdout.write(q.stdout)
-        return {"patch": os.path.basename(patch), "expect": sorted(expect), "fired": fired}
+        return {"patch": label, "expect": sorted(expect), "fired": fired}
     finally:
         if not keep:
             shutil.rmtree(scratch, ignore_errors=True)
